@@ -572,12 +572,11 @@ func (c *cmafIngester) sendMediaSegment(ctx context.Context, wg *sync.WaitGroup,
 	u := fmt.Sprintf("%s/%s", c.dest(), segPath)
 	c.log.Info("send media segment", "path", segPath, "segNr", segNr, "nowMS", nowMS, "url", u, "chunked", c.useChunked)
 
+	// The channels are not closed: the reader side may still be blocked sending on them
+	// when writeSegment has given up, and a send on a closed channel panics.
 	nrBytesCh := make(chan int)
-	defer close(nrBytesCh)
 	writeMoreCh := make(chan struct{})
-	defer close(writeMoreCh)
 	finishedSendCh := make(chan struct{})
-	defer close(finishedSendCh)
 
 	src := newCmafSource(nrBytesCh, writeMoreCh, c.log, u, contentType, c.user, c.passWord, c.useChunked)
 
